@@ -374,7 +374,10 @@ func (w *World) Start(cached bool) StartResult {
 	go Serve(l)
 	leaf, err := Handshake(l.Addr().String())
 	if err != nil {
-		res.Outcome, res.Err = "failed", fmt.Errorf("handshake: %w", err)
+		// the run started (and advertises a fingerprint) but cannot complete a handshake: neither an
+		// error nor a served key
+		res.Outcome, res.Err = "unusable", fmt.Errorf("handshake: %w", err)
+		res.Advertised = l.Fingerprint
 		l.Close()
 		w.l = nil
 		return res
